@@ -435,3 +435,9 @@ def repo_import_setup():
     sys.path.insert(0, REPO)
     os.environ['PYTHONDONTWRITEBYTECODE'] = '1'
     sys.dont_write_bytecode = True
+    import contextlib, io
+    try:
+        with contextlib.redirect_stdout(io.StringIO()):
+            import skepticoin.blockstore  # noqa  (prints 'Creating new block database' and creates ./chain.db in the scratch cwd)
+    except Exception:
+        pass
